@@ -1,5 +1,23 @@
-import Ucfg.Model.Tree
+import Ucfg.Lemmas.Forest
+/-!
+  C11 — reads are pure.
+
+  In the model a read is a function *of* the tree that returns no tree: purity is a matter of types, and the theorems
+  below only make explicit what that means for the two places where the Go code could plausibly write while reading.
+  * a config used as a merge source is only copied from (`merge_source_only_read`, from C10's copy theorems);
+  * evaluating references threads the per-call cache and nothing else: the `EM` monad's state is `Cache`, the tree is
+    an argument (opts.go: "nothing is cached on the value"), and C08's `cache_only_primitives` shows that what the
+    cache holds are primitives, never a piece of the shared tree.
+  The statement about goroutines is about the Go memory model, which no functional model can exhibit: it is decided by
+  running the real readers concurrently under the race detector (kind `concurrent`) and by comparing the fingerprint
+  of every config before and after every read (kind `forest`).  C11 is therefore claimed as partial.
+-/
 namespace Ucfg.C11
-/-- placeholder while the forest model is being written -/
-theorem stub : True := trivial
+open Ucfg.Forest
+
+/-- using a config as a merge source reads it: every node it consists of is identical afterwards -/
+theorem merge_source_only_read (n : Nat) (h h' : Heap) (src id' : Id) (p : Option Id) (f : String)
+    (he : Forest.cpy n h src p f = some (h', id')) : ∀ (i : Nat) (nd : Node), h[i]? = some nd → h'[i]? = some nd :=
+  fun i nd hi => cpy_old_nodes he i nd hi
+
 end Ucfg.C11
